@@ -23,13 +23,13 @@ PID = "C19"
 URL = "http://fake.endpoint/sparql"
 RULE = ("Hypothesis-generated cases (graphs x switches x threshold x channel in {raw NT, TSV, TURTLE_ITER, TURTLE via rdflib, rdflib "
         "Graph, shape map with node/FOCUS/SPARQL selectors, fake SPARQL endpoint} x {target_classes, all_classes_mode} x namespaces "
-        "dict), each executed in fresh subprocesses under PYTHONHASHSEED in {0,1,2,3} (thorough: 0..7).  Oracle: identical SHA-256 of "
+        "dict), each executed in fresh subprocesses under 4 (thorough: 8) PYTHONHASHSEED values: 0, 1 and values that change from batch to batch.  Oracle: identical SHA-256 of "
         "the ShExC text and identical canonical SHACL graph across the seeds; for rdflib-ordered channels canonical-document "
         "equality instead of byte equality.  An evaluation is one case under all seeds.  Non-trivial: >=2 equally frequent constraints "
         "or >=3 target nodes (an order dependence would be visible); distinct by SHA-1 of the case.")
 ASSUMPTIONS = ["4 (quick) / 8 (thorough) hash seeds per case: a dependence that shows only for rarer seeds can be missed",
                "rdflib.compare.to_canonical_graph for SHACL isomorphism"]
-BUDGET = {"quick": {"examples": 0, "wall": 240, "cases": 1280}, "thorough": {"examples": 0, "wall": 5400, "cases": 20000}}
+BUDGET = {"quick": {"examples": 0, "wall": 240, "cases": 2560}, "thorough": {"examples": 0, "wall": 5400, "cases": 20000}}
 FLOORS = {"nontrivial": 0.3, "chan:endpoint": 0.05, "chan:sm": 0.05, "byte-compared": 0.3}
 RDFLIB_ORDERED = ("turtle", "rdflib", "endpoint-cached")
 NS4 = {"http://a.org/": "", "http://b.org/": "weso-s", "http://c.org/": "shapes", "http://d.org/": "w-shapes"}
@@ -57,10 +57,11 @@ def cases(draw):
         case["target"] = draw(common.target_spec(g))
     if chan == "endpoint":
         case["cache_off"] = draw(st.booleans())
-    if chan == "nt" and draw(st.integers(0, 3)) == 0:
+    if chan == "nt" and draw(st.integers(0, 1)) == 0:
         # class membership from a separate instances file, some instances without a triple of their own (their shapes are
         # removed as empty at profiling time and the references to them cleaned)
-        case["split_instances"] = draw(st.lists(st.integers(0, 7), min_size=1, max_size=4))
+        case["split_instances"] = {"bare": draw(st.lists(st.integers(0, 7), min_size=0, max_size=3)),
+                                   "hollow": draw(st.lists(st.integers(0, 3), min_size=1, max_size=3, unique=True))}
     if chan in ("ntfiles", "zip"):
         case["parts"] = draw(st.integers(2, 5))       # files of the list / members of the archive (statement i goes to part i % parts)
     k = draw(st.integers(0, 7))
@@ -264,7 +265,7 @@ def judge(case, recs_by_seed):
 def check(case):
     """replay entry point: runs the single case under the quick seed set"""
     with sut.tmpdir() as tmp:
-        res = run_batch([case], [0, 1, 2, 3], tmp)
+        res = run_batch([case], case.get("hash_seeds") or [0, 1, 2, 3], tmp)
     return judge(case, {hs: res[hs][0] for hs in res})
 
 
@@ -284,7 +285,6 @@ def collect_cases(n, seed):
 def run_shard(tier, seed, w, W, stats, deadline):
     total = BUDGET[tier]["cases"]
     n = (total + W - 1) // W
-    seeds = [0, 1, 2, 3] if tier == "quick" else list(range(8))
     cs = collect_cases(n, mix_seed(seed, PID, w))
     B = 25
     for i in range(0, len(cs), B):
@@ -292,6 +292,12 @@ def run_shard(tier, seed, w, W, stats, deadline):
             stats.skipped_wall += len(cs) - i
             break
         batch = cs[i:i + B]
+        # hash seeds: 0 and 1 always, the others change from batch to batch (a pure function of VERIF_SEED, worker and batch), so
+        # that a dependence showing only for some seeds is not tied to one fixed quadruple; the seeds are stored in the case
+        k = 2 if tier == "quick" else 6
+        seeds = [0, 1] + [1 + mix_seed(seed, PID + ":hs", w * 100003 + i * 7 + j) % 4294967290 for j in range(k)]
+        for c in batch:
+            c["hash_seeds"] = seeds
         with sut.tmpdir() as tmp:
             res = run_batch(batch, seeds, tmp)
         for j, case in enumerate(batch):
